@@ -37,6 +37,8 @@ type Case struct {
 	S      []uint64  `json:"s,omitempty"`
 	T      uint64    `json:"t,omitempty"`
 	Chunks []Chunk   `json:"chunks,omitempty"`
+	N      int       `json:"n,omitempty"`    // bigarchive: number of generated chunks
+	Seed   int       `json:"seed,omitempty"` // bigarchive: generator seed
 }
 
 type Rec struct {
@@ -74,6 +76,18 @@ type Obs struct {
 	R       int        `json:"r"`
 	Prefix  []uint64   `json:"prefixes,omitempty"`
 	Suffix  [][]int    `json:"suffixes,omitempty"`
+	// bigarchive: counts computed in Go (the chunk set is too big for a Coq term)
+	NHas      int  `json:"nhas"`      // written chunks reported present
+	NGetOk    int  `json:"ngetok"`    // written chunks read back byte for byte
+	NIter     int  `json:"niter"`     // chunks delivered by iterateAllChunks
+	NIterOk   int  `json:"niterok"`   // ... that are written chunks with the right bytes (distinct)
+	NAbsentOk int  `json:"nabsentok"` // absent probes reported absent (has and get)
+	NAbsent   int  `json:"nabsent"`   // absent probes tried
+	Sorted    bool `json:"sorted"`    // archive index sorted by full address
+	// small archives: raw index block, staged span lengths, chunk refs per index position
+	Idx      []int    `json:"idx,omitempty"`
+	SpanLens []uint64 `json:"spanlens,omitempty"`
+	Refs     [][]int  `json:"refs,omitempty"`
 }
 
 func toHash(a []int) hash.Hash {
@@ -287,6 +301,123 @@ func runArchive(ctx context.Context, c Case) (any, error) {
 	for _, s := range ss {
 		o.Suffix = append(o.Suffix, fromBytes(s))
 	}
+	raw, ends, refs, err := a.VerifArchiveIndexBytes(ctx)
+	if err != nil {
+		return nil, err
+	}
+	o.Idx = fromBytes(raw)
+	prev := uint64(0)
+	for _, e := range ends {
+		o.SpanLens = append(o.SpanLens, e-prev)
+		prev = e
+	}
+	for _, r := range refs {
+		o.Refs = append(o.Refs, []int{int(r[0]), int(r[1])})
+	}
+	return o, nil
+}
+
+// runBigArchive converts N (> maxSamples) generated chunks to an archive through the
+// ArchiveStreamWriter: the first maxSamples are queued as snappy chunks, then a zstd
+// dictionary is built and everything is staged. Membership is compared here.
+func runBigArchive(ctx context.Context, c Case) (any, error) {
+	var o Obs
+	o.Kind = "bigarchive"
+	dir, err := os.MkdirTemp("", "c06-")
+	if err != nil {
+		return nil, err
+	}
+	defer os.RemoveAll(dir)
+	x := uint64(c.Seed)*2862933555777941757 + 3037000493
+	next := func() uint64 { x ^= x << 13; x ^= x >> 7; x ^= x << 17; return x }
+	words := []string{"alpha", "beta", "gamma", "delta", "row", "key", "value", "dolt", "chunk", "node"}
+	cs := make([]chunks.Chunk, c.N)
+	want := map[hash.Hash][]byte{}
+	for i := 0; i < c.N; i++ {
+		var b bytes.Buffer
+		fmt.Fprintf(&b, "%d:", i)
+		for k := 0; k < 4+int(next()%8); k++ {
+			b.WriteString(words[next()%uint64(len(words))])
+			b.WriteByte(byte('0' + next()%10))
+		}
+		var h hash.Hash
+		v := next()
+		for k := 0; k < 8; k++ {
+			h[k] = byte(v >> (8 * k))
+		}
+		if i%7 == 0 && i > 0 { // shared prefixes
+			prev := cs[i-1].Hash()
+			copy(h[:8], prev[:8])
+		}
+		w := next()
+		for k := 8; k < 20; k++ {
+			h[k] = byte(w >> (8 * (k % 8)))
+		}
+		h[19] = byte(i)
+		h[18] = byte(i >> 8)
+		cs[i] = chunks.NewChunkWithHash(h, b.Bytes())
+		want[h] = b.Bytes()
+	}
+	a, err := nbs.VerifBuildArchive(ctx, dir, cs)
+	if err != nil {
+		return nil, err
+	}
+	defer a.Close()
+	o.Count = a.Count()
+	for h, d := range want {
+		ok, err := a.Has(h)
+		if err != nil {
+			return nil, err
+		}
+		if ok {
+			o.NHas++
+		}
+		got, err := a.Get(ctx, h)
+		if err != nil {
+			return nil, err
+		}
+		if got != nil && bytes.Equal(got, d) {
+			o.NGetOk++
+		}
+	}
+	it, err := a.IterateAll(ctx)
+	if err != nil {
+		return nil, err
+	}
+	seen := map[hash.Hash]bool{}
+	for _, ch := range it {
+		o.NIter++
+		if d, ok := want[ch.Hash()]; ok && bytes.Equal(d, ch.Data()) && !seen[ch.Hash()] {
+			seen[ch.Hash()] = true
+			o.NIterOk++
+		}
+	}
+	for i := 0; i < 50 && i < c.N; i++ {
+		h := cs[i*(c.N/50+1)%c.N].Hash()
+		h[12] ^= 0x55 // same prefix, different suffix
+		if _, dup := want[h]; dup {
+			continue
+		}
+		o.NAbsent++
+		ok, err := a.Has(h)
+		if err != nil {
+			return nil, err
+		}
+		got, err := a.Get(ctx, h)
+		if err != nil {
+			return nil, err
+		}
+		if !ok && got == nil {
+			o.NAbsentOk++
+		}
+	}
+	ps, ss := a.VerifArchiveIndex()
+	o.Sorted = true
+	for i := 1; i < len(ps); i++ {
+		if ps[i-1] > ps[i] || (ps[i-1] == ps[i] && bytes.Compare(ss[i-1], ss[i]) >= 0) {
+			o.Sorted = false
+		}
+	}
 	return o, nil
 }
 
@@ -303,6 +434,8 @@ func Run(raw json.RawMessage) (any, error) {
 		return Obs{Kind: "search", R: nbs.VerifProllyBinSearch(c.S, c.T)}, nil
 	case "archive":
 		return runArchive(ctx, c)
+	case "bigarchive":
+		return runBigArchive(ctx, c)
 	}
 	return nil, fmt.Errorf("unknown kind %q", c.Kind)
 }
